@@ -5,6 +5,7 @@ from .. import core, pipe, itergen as IG, strcorpus as SC
 from ..defs import variant, enum, STYLES
 from .c03 import report_compile_failures
 
+from ..core import COMMON_DIMENSIONS
 PROP = "C08"
 SIZES = dict(quick=dict(full_masks=4, sampled=150, mcV=7), thorough=dict(full_masks=7, sampled=3000, mcV=10))
 
@@ -101,6 +102,8 @@ def run(tier, seed, rep):
                        "serialize/to_string/prefix/serialize_all; one event per definition with COUNT, iter().count(), the iterated "
                        "declaration indices, VariantNames::VARIANTS and the declaration indices of VariantArray::VARIANTS; TLC checks each "
                        "against its statement and the cross relations; distinct_nontrivial = definitions with at least one variant" % sz["full_masks"])
+    rep.cov["rule"] += ' + a 280-variant enum'
+    rep.cov["rule"] += COMMON_DIMENSIONS
     rep.cov["samples"] = [dict(def_=e["def"], count=e["count"], iter=e["iter"], array=e["array"], names=[core.uncp(x) for x in e["names"]]) for e in evs[30:33]]
     rep.assumptions += ["rustc/cargo, the 1:1 printer and the generated decl_index are trusted"]
     return rep
